@@ -119,8 +119,9 @@ Definition mh_ok (al : alist) (m : mh) : bool := let '(code, len, _) := m in val
 Definition store_clean (al : alist) (s : store) : bool := forallb (fun e => mh_ok al (fst e)) s.
 
 (** no call that stores or fetches, and no result, carries a CID the validator rejects *)
-Definition ev_clean (al : alist) (e : ev) : bool :=
+Fixpoint ev_clean (al : alist) (e : ev) : bool :=
   match e with
+  | EvForeign e' => ev_clean al e'
   | EvPut b => cid_ok al (b_cid b)
   | EvPutMany bs | EvNotify bs => forallb (fun b => cid_ok al (b_cid b)) bs
   | EvFetch1 _ c => cid_ok al c
